@@ -354,6 +354,70 @@ def c10_lev_data(ctx, case):
 
 
 # ----------------------------------------------------------------------------
+# LEVINSON on sequences that end in exact zeros: the autocorrelation of a moving-average process (lags beyond the filter
+# length are exactly 0.0), an estimate multiplied by a lag window that vanishes at its end point
+# ----------------------------------------------------------------------------
+@st.composite
+def lev_ma_case(draw):
+    cplx = draw(st.booleans())
+    q = draw(st.integers(1, 6))
+    coef = st.sampled_from([1.0, -1.0, 0.5, -0.5, 0.25, 2.0, -0.75, 0.8, 0.3, -0.3, 1.5])
+    h = {"re": [1.0] + [draw(coef) for _ in range(q)], "im": [0.0] + [draw(coef) for _ in range(q)] if cplx else None}
+    pad = draw(st.integers(1, 12))
+    mode = draw(st.sampled_from(["ma", "ma", "bartlett"]))
+    return {"h": h, "pad": pad, "mode": mode, "r0": draw(st.sampled_from(R0S)), "form": draw(st.sampled_from(["array", "array", "list"])),
+            "q": draw(st.integers(0, q + pad))}
+
+
+@sub("C10.lev_ma", strategy=lev_ma_case(), quick=400, thorough=20000,
+     doc="r = exact autocorrelation of an FIR filter of length q+1 followed by 1..12 lags that are exactly 0.0 (or the same lags times "
+         "a Bartlett lag window that is 0 at the last lag): T[1,a]==[P,0..0], P==r0*prod(1-|k|^2), agreement with the reference "
+         "recursion, nesting at every order")
+def c10_lev_ma(ctx, case):
+    h = np.array(case["h"]["re"], dtype=float)
+    cplx = case["h"]["im"] is not None
+    if cplx:
+        h = h + 1j * np.array(case["h"]["im"], dtype=float)
+    q = len(h) - 1
+    m = q + case["pad"]
+    r = np.zeros(m + 1, dtype=complex if cplx else float)
+    for j in range(q + 1):
+        r[j] = np.sum(h[j:] * np.conj(h[:len(h) - j]))
+    if case["mode"] == "bartlett":
+        r = r * (1.0 - np.arange(m + 1) / float(m))      # exactly 0.0 at lag m
+    r = r * (case["r0"] / float(np.real(r[0])))
+    if not cplx:
+        r = np.real(r)
+    r0 = float(np.real(r[0]))
+    T = _toep(r)
+    c = _cond(T)
+    ctx.cls("complex" if cplx else "real", "mode=" + case["mode"], _bucket(m), _cbucket(c), "trailing zeros: %d" % int(np.sum(np.cumprod(r[::-1] == 0))))
+    if c > CMAX:
+        ctx.exclude("cond(T) > 1e6 (zeros of the filter near the unit circle)")
+        return
+    ctx.nontrivial(m >= 2 and r[-1] == 0 and bool(np.any(r[1:] != 0)))
+    arg = r.tolist() if case["form"] == "list" else r
+    A, Pl, kk = spectrum.LEVINSON(arg)
+    A = np.asarray(A)
+    kk = np.asarray(kk)
+    ctx.check(A.shape == (m,) and kk.shape == (m,), "LEVINSON returned %d coefficients for order %d" % (len(A), m))
+    ctx.check(np.imag(Pl) == 0 and np.real(Pl) > 0, "prediction error %r is not a positive real" % (Pl,))
+    Pl = float(np.real(Pl))
+    _check_solution(ctx, r0, T, A, Pl, c, "order %d (r ends in exact zeros)" % m)
+    Pk = r0 * float(np.prod(1 - np.abs(kk) ** 2))
+    ctx.check(abs(Pl / Pk - 1) <= 1e-10, "P=%r != r0*prod(1-|k_i|^2)=%r" % (Pl, Pk))
+    a2, P2, k2 = ref.levinson_ref(r)
+    ctx.close(kk.astype(complex), k2, "reflection coefficients vs reference recursion", rtol=0, atol=ETOL * c)
+    ctx.close(A.astype(complex), a2, "polynomial vs reference recursion", rtol=0, atol=ETOL * c * max(1.0, float(np.max(np.abs(a2)))))
+    _check_stable(ctx, A, "order %d" % m)
+    qq = min(case["q"], m)
+    Aq, Pq, kq = spectrum.LEVINSON(arg, qq)
+    ctx.close(np.asarray(kq).astype(complex), kk[:qq].astype(complex), "order-%d reflection coefficients vs first %d of order %d" % (qq, qq, m),
+              rtol=0, atol=ETOL * c)
+    _check_solution(ctx, r0, T[:qq + 1, :qq + 1], np.asarray(Aq), float(np.real(Pq)), c, "order %d of %d" % (qq, m))
+
+
+# ----------------------------------------------------------------------------
 # LEVINSON on clearly indefinite sequences
 # ----------------------------------------------------------------------------
 @st.composite
@@ -645,6 +709,8 @@ def _toeplitz_case0(draw, phase):
         case["keep_c"] = draw(st.lists(st.booleans(), min_size=M, max_size=M))
         case["keep_r"] = draw(st.lists(st.booleans(), min_size=M, max_size=M))
     case["margin"] = draw(st.sampled_from(MARGINS))
+    # a symmetric system: the caller passes one and the same object as column and as row lags
+    case["same_obj"] = draw(st.integers(0, 5)) == 5
     if not phase:
         case["t0_phase"] = 0.0
     elif cplx:
@@ -680,6 +746,8 @@ def _toeplitz_body(ctx, case):
         if case["fam"] == "sparse":
             tc = tc * np.array(case["keep_c"])
             tr = tr * np.array(case["keep_r"])
+        if case.get("same_obj"):
+            tr = tc
         s = float(np.sum(np.abs(tc)) + np.sum(np.abs(tr)))
         mag = s * (1 + case["margin"]) if s > 0 else 1.0
         ph = case["t0_phase"]
@@ -692,6 +760,9 @@ def _toeplitz_body(ctx, case):
     u, zu = case.get("units", 1.0), case.get("z_units", 1.0)
     if u != 1.0:
         t0, tc, tr, T = t0 * u, tc * u, tr * u, T * u
+    if case.get("same_obj"):
+        tr = tc          # (still one object after the change of units)
+        ctx.cls("column and row lags: the same object")
     if zu != 1.0:
         z = z * zu
     ctx.cls("T complex" if case["complex"] else "T real", "z " + gen.describe(case["z"]), "fam=" + case["fam"], _bucket(M), _cbucket(c),
@@ -709,7 +780,8 @@ def _toeplitz_body(ctx, case):
                 pass
         ctx.cls("after rejected calls")
     if case["form"] == "list":
-        X = TOEPLITZ(t0, tc.tolist(), tr.tolist(), z.tolist())
+        lc = tc.tolist()
+        X = TOEPLITZ(t0, lc, lc if case.get("same_obj") else tr.tolist(), z.tolist())
     else:
         X = TOEPLITZ(t0, tc, tr, z)
     _resid_ok(ctx, T, X, z.astype(complex), c, "TOEPLITZ")
